@@ -286,10 +286,30 @@ func (csm *conditionalStorageMiddleware) CopyObject(ctx context.Context, srcBuck
 	}
 	defer closeReaders(readers)
 
+	// Carry metadata, tags and storage class over exactly like a same-storage
+	// copy does: metadata and tags follow their directives, the website
+	// redirect location is never copied from the source, and the storage class
+	// comes from the copy request only.
+	putOpts := &storage.PutObjectOptions{}
 	if opts != nil && opts.ReplaceMetadata {
 		contentType = opts.ContentType
+		putOpts.Metadata = opts.Metadata
 	} else {
 		contentType = srcObject.ContentType
+		metadata := srcObject.Metadata
+		metadata.WebsiteRedirectLocation = nil
+		if opts != nil && opts.Metadata != nil {
+			metadata.WebsiteRedirectLocation = opts.Metadata.WebsiteRedirectLocation
+		}
+		putOpts.Metadata = &metadata
+	}
+	if opts != nil && opts.ReplaceTags {
+		putOpts.Tags = opts.Tags
+	} else {
+		putOpts.Tags = srcObject.Tags
+	}
+	if opts != nil {
+		putOpts.StorageClass = opts.StorageClass
 	}
 	body, err := cachedCopyBody(readers)
 	if err != nil {
@@ -297,7 +317,7 @@ func (csm *conditionalStorageMiddleware) CopyObject(ctx context.Context, srcBuck
 	}
 	defer body.Close()
 
-	putResult, err := dstStorage.PutObject(ctx, dstBucket, dstKey, contentType, body, nil, nil)
+	putResult, err := dstStorage.PutObject(ctx, dstBucket, dstKey, contentType, body, nil, putOpts)
 	if err != nil {
 		return nil, err
 	}
